@@ -1088,7 +1088,7 @@ func TestPropWindowTables(t *testing.T) {
 	rec.Assume("reference windows: window i = [epoch + offset + i*every, + every) in UTC (Flux window() documentation); calendar-month windows by time.Date; every == period, non-negative every/offset (the planner pushes down nothing else)")
 	rec.Assume("min/max ties: any row holding the extreme value may be reported as the selected point; float sum/mean compared with relative tolerance 1e-9; integer sums kept far from overflow")
 	rec.Assume("a series without any raw row inside the bounds may yield no table (or only null / count 0 rows); bare aggregates (every=MaxInt64) are only issued with non-negative bounds")
-	rec.Check(t, 150, 4000, func(t *rapid.T) {
+	rec.Check(t, 200, 4000, func(t *rapid.T) {
 		// the aggregates of the case decide which values are safe
 		nSpecs := 6
 		specAggs := make([]string, nSpecs)
